@@ -1208,6 +1208,9 @@ func vRunC01(t vFatalC01, st *verifkit.Stats, sp *vSpecC01, classes []string) {
 		if o.Msec < 0 || o.Msec > 1<<31 {
 			oddTime++
 		}
+		if vBeyondUnixNanoC01(o.Msec, o.Mnsec) {
+			farTime++
+		}
 		if o.Mode&0o7000 != 0 {
 			sbits++
 		}
